@@ -59,7 +59,7 @@ LEVEL_TEXT = (
 )
 LEVEL_NOTE = "Trusted: the lexical reference, the behavioural task-group ownership probe (hv/gen/programs.py World.idle / tg snapshots), interposer, gate scheduler, VirtualLoop."
 
-BODY_EXITS = ("raise-exc", "raise-base", "raise-cancelled", "cancel-self", "raise-keyerror", "raise-timeout", "raise-stopasync", "raise-lookup", "raise-runtime", "raise-assert", "raise-group", "raise-unprintable")
+BODY_EXITS = ("raise-exc", "raise-base", "raise-cancelled", "cancel-self", "raise-keyerror", "raise-timeout", "raise-stopasync", "raise-lookup", "raise-runtime", "raise-assert", "raise-group", "raise-unprintable", "raise-genexit", "raise-frozen", "raise-unhashable")
 PROGRAMS = {"quick": 160, "thorough": 5000}
 DFS_CAP = {"quick": 12, "thorough": 60}
 
@@ -142,7 +142,7 @@ def injection_program(rng: random.Random) -> list[dict[str, Any]]:
     return prog
 
 
-def run_once(prog: list[dict[str, Any]], prefix: list[int], policy: Any, target: int | None = None, rng_seed: int = 0, after_idles: int = 0) -> dict[str, Any]:
+def run_once(prog: list[dict[str, Any]], prefix: list[int], policy: Any, target: int | None = None, rng_seed: int = 0, after_idles: int = 0, tg: bool = True) -> dict[str, Any]:
     root = logging.getLogger()
     out: dict[str, Any] = {}
     inj = Injector(target, after_idles)
@@ -170,6 +170,7 @@ def run_once(prog: list[dict[str, Any]], prefix: list[int], policy: Any, target:
     def hook(loop: Any) -> Any:
         sched = Sched(loop, chooser)
         loop.W = World(loop, sched)
+        loop.W.tg_enabled = tg  # the behavioural ownership probe cannot attribute exits of two tasks leaving blocks at the same time
         return lambda timeout: inj.on_idle() or loop.W.idle(timeout)
 
     lvl = root.level
@@ -252,7 +253,7 @@ def explore_variant(R: Recorder, prog: list[dict[str, Any]], meta: dict[str, Any
     k = 0
     R.count(f"faults:{meta['fault']}")
     while prefix is not None and k < cap:
-        out = run_once(prog, prefix, "first")
+        out = run_once(prog, prefix, "first", tg=not meta.get("no_tg_probe"))
         ch: Chooser = out["chooser"]
         rec_case = {"program": prog, "meta": meta, "choices": [c for c, _ in ch.trace]}
         R.case((shape_key(prog), meta, out["sched"].key()), nontrivial=True)
@@ -308,8 +309,28 @@ def late_child_failure_programs():  # noqa: ANN201
             yield [{"op": "probe", "id": 0}, out, {"op": "probe", "id": 4}], {"block": "out", "kind": "ascope", "fault": "body-exception", "exit": exit_kind, "after_late_child_failure": True}
 
 
+def late_leaver_programs():  # noqa: ANN201
+    """a task spawned from inside nested synchronous scopes (it joins the enclosing asynchronous scope's group) enters a block of
+    its own while they are open and leaves it only after some or all of them were left: leaving that block normally has to hand
+    back what the task saw before it, and must not raise"""
+    for job_kind in ("sscope", "ascope", "updated"):
+        for depth in (1, 2, 3):
+            for job_exit in ("return", "raise-exc"):
+                job = {"op": "block", "kind": job_kind, "name": "job", "supply": [["D1", 30], ["R1", 31]], "catch": True, "exit": {"kind": job_exit},
+                       "body": [{"op": "probe", "id": 11}, {"op": "gate", "label": "job.hold"}, {"op": "probe", "id": 12}]}
+                inner: list[dict[str, Any]] = [{"op": "spawn", "via": "ctx", "name": "late", "owner": "out", "body": [{"op": "probe", "id": 10}, job, {"op": "probe", "id": 13}]},
+                                               {"op": "gate", "label": "sync.wait"}, {"op": "probe", "id": 5}]
+                for d in range(depth):
+                    inner = [{"op": "probe", "id": 20 + d}, {"op": "block", "kind": "sscope", "name": f"s{d}", "supply": [["D1", 40 + d], ["D2", 50 + d]], "catch": True, "exit": {"kind": "return"}, "body": inner}, {"op": "probe", "id": 25 + d}]
+                out = {"op": "block", "kind": "ascope", "name": "out", "supply": [["D1", 1], ["R1", 2]], "catch": True, "exit": {"kind": "return"}, "body": [*inner, {"op": "gate", "label": "out.wait"}, {"op": "probe", "id": 3}]}
+                yield [{"op": "probe", "id": 0}, out, {"op": "probe", "id": 4}], {"block": "job", "kind": job_kind, "fault": "body-exception" if job_exit != "return" else "late-leaver", "exit": job_exit, "left_after_spawning_scopes": depth, "no_tg_probe": job_kind == "ascope"}
+
+
 def run(R: Recorder, tier: str, seed: int, shard: int, nshards: int) -> None:
     if shard == 0:
+        for p, meta in late_leaver_programs():
+            R.count("programs_leaving_a_block_after_the_scopes_it_was_spawned_from")
+            explore_variant(R, p, meta, random.Random(0), DFS_CAP[tier])
         rng0 = random.Random(f"C02/{seed}/late")
         for p, meta in late_child_failure_programs():
             R.count("programs_with_a_late_child_failure")
@@ -330,7 +351,7 @@ def run(R: Recorder, tier: str, seed: int, shard: int, nshards: int) -> None:
 
 
 def replay(R: Recorder, rec: dict[str, Any]) -> None:
-    out = run_once(rec["program"], rec["choices"], "first", target=rec.get("k"), after_idles=rec.get("after_idles", 0))
+    out = run_once(rec["program"], rec["choices"], "first", target=rec.get("k"), after_idles=rec.get("after_idles", 0), tg=not rec["meta"].get("no_tg_probe"))
     judge(R, rec["program"], rec["meta"], out, rec)
     W: World = out["W"]
     print("program outcome:", out.get("program"), "status:", out["status"])
